@@ -156,15 +156,21 @@ def build_pattern(pat):
     mt = math.inf
     if tb is not None:
         mt = float(tb[0]) / 1000.0 if tb[1] == 'ms' else float(tb[0])
+    kw = {'max_time': mt}
+    if MIN_TIME[0] is not None:
+        kw['min_time'] = min(MIN_TIME[0], mt)  # a lower bound has no concrete syntax: constructors only
     if pk == 'some':
-        return HplPattern.existence(build_event(first), max_time=mt)
+        return HplPattern.existence(build_event(first), **kw)
     if pk == 'no':
-        return HplPattern.absence(build_event(first), max_time=mt)
+        return HplPattern.absence(build_event(first), **kw)
     if pk == 'causes':
-        return HplPattern.response(build_event(first), build_event(second), max_time=mt)
+        return HplPattern.response(build_event(first), build_event(second), **kw)
     if pk == 'forbids':
-        return HplPattern.prevention(build_event(first), build_event(second), max_time=mt)
-    return HplPattern.requirement(build_event(first), build_event(second), max_time=mt)
+        return HplPattern.prevention(build_event(first), build_event(second), **kw)
+    return HplPattern.requirement(build_event(first), build_event(second), **kw)
+
+
+MIN_TIME = [None]  # lower time bound given to patterns built through the API (None: the default)
 
 
 def build_property(p):
